@@ -371,3 +371,19 @@ Theorem C11_stream_delivery_in_flight : forall ms tail chunks,
     l_buf (feed loader_new (concat chunks) 0) = tail.
 Proof. exact stream_delivery_in_flight. Qed.
 Print Assumptions C11_stream_delivery_in_flight.
+
+(* valid messages followed by bytes [bad] (at least a fixed header; [bad] includes everything that follows) whose
+   fixed header the framing test rejects: for every chunking, every valid message in front is delivered exactly
+   as above, then the stream is declared corrupt, and nothing of [bad] ever becomes a message
+   (with C11_nothing_after_corruption: whatever arrives later).  Non-vacuity: ex_bad_header in Proofs/EndToEnd.v. *)
+Theorem C11_stream_then_corruption : forall ms bad chunks r,
+  Forall (fun m => wf_msg m = true /\ spec_nfds (s_fields m) = 0) ms ->
+  16 <= nlen bad -> have_message DBUS_MAXIMUM_MESSAGE_LENGTH bad = HaveInvalid r ->
+  concat chunks = concat (map spec_encode_message ms) ++ bad ->
+  exists msgs, outcome (feed_all loader_new chunks) = (true, msgs) /\
+    Forall2 (fun m msg =>
+      m_header msg ++ m_body msg = spec_encode_message m /\ m_body msg = m_bodyb m /\ m_nfds msg = 0 /\
+      Forall2 (hf_ok (s_le m)) (s_fields m) (m_fields msg) /\
+      read_all (s_le m) (s_sig m) (m_body msg) = inl (s_body m)) ms msgs.
+Proof. exact stream_then_corruption. Qed.
+Print Assumptions C11_stream_then_corruption.
